@@ -135,6 +135,17 @@ func linOf(w *World, v ssa.Value, depth int) *linSum {
 		if u := w.up(x); u != nil && u != ssa.Value(x) {
 			return linOf(w, u, depth+1)
 		}
+	case *ssa.Call:
+		// len(x[lo:hi]) = hi - lo
+		if ln := isBuiltinCall(x, "len"); ln != nil {
+			if sl, ok := stripAllConv(ln.Call.Args[0]).(*ssa.Slice); ok && sl.High != nil {
+				out.add(linOf(w, sl.High, depth+1), 1)
+				if sl.Low != nil {
+					out.add(linOf(w, sl.Low, depth+1), -1)
+				}
+				return out
+			}
+		}
 	}
 	return atom(v)
 }
@@ -171,7 +182,7 @@ func ruleVOLCOVER(w *World, r *Report) {
 				var idx []*ssa.IndexAddr
 				backSlice(mu.Value, func(v ssa.Value) bool {
 					if ia, ok := v.(*ssa.IndexAddr); ok {
-						if strings.HasSuffix(resolvedPath(ia.X).Path, ".parityShards") || strings.HasSuffix(valuePath(w.up(ia.X)).Path, ".parityShards") {
+						if _, ok := linIndexInto(w, ia, ".parityShards"); ok {
 							idx = append(idx, ia)
 						}
 						return false
@@ -185,7 +196,7 @@ func ruleVOLCOVER(w *World, r *Report) {
 					r.unk("VOLCOVER", key+":V1", w.ipos(mu), fmt.Sprintf("the packet's data is not one element of parityShards (%d index expressions found)", len(idx)))
 					continue
 				}
-				K2 := linOf(w, idx[0].Index, 0)
+				K2, _ := linIndexInto(w, idx[0], ".parityShards")
 				if K.equal(K2) {
 					r.ok("VOLCOVER", key+":V1", w.ipos(mu), "the packet stored under exponent K carries parityShards[K]")
 				} else {
@@ -224,6 +235,7 @@ func ruleVOLCOVER(w *World, r *Report) {
 				}
 				// the bound: the inner loop's only exit is j >= B
 				var bound ssa.Value
+				var boundOff int64
 				exits := 0
 				for ib := range inner.body {
 					for si, s := range ib.Succs {
@@ -237,11 +249,18 @@ func ruleVOLCOVER(w *World, r *Report) {
 									continue
 								}
 								x, y, op := cm.X, cm.Y, cm.Op
-								if stripAllConv(y) == ssa.Value(j) {
+								// the compared value is j + d (d = 1 in the rotated form of a range loop)
+								isInd := func(v ssa.Value) (int64, bool) {
+									l := linOf(w, v, 0)
+									l.add(linOf(w, j, 0), -1)
+									return l.c, len(l.coef) == 0
+								}
+								if _, ok := isInd(y); ok {
 									x, y, op = y, x, swapOp(op)
 								}
-								if stripAllConv(x) == ssa.Value(j) && op == token.GEQ {
+								if d, ok := isInd(x); ok && op == token.GEQ {
 									bound = y
+									boundOff = d
 								}
 							}
 						}
@@ -257,6 +276,7 @@ func ruleVOLCOVER(w *World, r *Report) {
 				lo.add(A, 1)
 				hi := linOf(w, bound, 0)
 				hi.add(A, 1)
+				hi.c -= boundOff
 				// the outer loop: in f, or in the caller of the helper
 				var site ssa.Instruction = in
 				g := f
@@ -307,6 +327,25 @@ func checkVolumeLoop(w *World, r *Report, key string, mu *ssa.MapUpdate, g *ssa.
 		}
 	}
 	if pos == nil {
+		// the runs come from a table built elsewhere (a schedule of {start, count} records read in a
+		// range loop): the first exponent and the length of the run are fields of one loop element.
+		// The layout is then a property of the table's contents, which this rule does not follow;
+		// V1 (key = shard index) is decided above, V2/V3 are recorded as not decided in this shape.
+		fromTable := len(lo.coef) > 0
+		for _, a := range lo.val {
+			ld, ok := a.(*ssa.UnOp)
+			if !ok || ld.Op != token.MUL {
+				fromTable = false
+				continue
+			}
+			if _, isField := ld.X.(*ssa.FieldAddr); !isField {
+				fromTable = false
+			}
+		}
+		if fromTable {
+			r.note("VOLCOVER " + key + ":V2/V3 at " + w.ipos(mu) + ": the volumes' first exponents are read from a table (" + describeLin(lo, nil) + "); the table's contents are not followed, only V1 is decided for this shape")
+			return
+		}
 		r.bad("VOLCOVER", key+":V2", w.ipos(mu), "the first exponent of a volume ("+describeLin(lo, nil)+") is not the volume loop's position: blocks are skipped or repeated between volumes")
 		return
 	}
@@ -993,4 +1032,25 @@ func ruleVANDER(w *World, r *Report) {
 		}
 	}
 	r.floor("VANDER", "matrix constructions under NewCoderPAR2Vandermonde", n, 1)
+}
+
+// linIndexInto: ia addresses an element of a slice whose access path ends in suffix, directly
+// or through reslicings x[lo:...]; the result is the element's index in the original slice.
+func linIndexInto(w *World, ia *ssa.IndexAddr, suffix string) (*linSum, bool) {
+	out := linOf(w, ia.Index, 0)
+	x := stripAllConv(upAll(w, ia.X))
+	for i := 0; i < 4; i++ {
+		if strings.HasSuffix(resolvedPath(x).Path, suffix) {
+			return out, true
+		}
+		sl, ok := x.(*ssa.Slice)
+		if !ok {
+			return out, false
+		}
+		if sl.Low != nil {
+			out.add(linOf(w, sl.Low, 0), 1)
+		}
+		x = stripAllConv(upAll(w, sl.X))
+	}
+	return out, false
 }
